@@ -3,7 +3,7 @@
 # meta.json says detect it (with the change applied to /repo, always reverted), and report any that no
 # longer do. Serial, ~1-2 min per change. Nothing else may build from /repo while this runs.
 set -u
-cd /verif
+cd "${VERIF_HOME:-/verif}"
 pat="${1:-*}"
 fail=0
 for d in seeded/$pat/; do
